@@ -226,6 +226,27 @@ def check_arrays(mod, col: Collector, tier: str):
             # whole array / slices: every position of one bad element in an otherwise valid sequence
             bads = [v for v in vals if verdict(v) == "out" and not isinstance(v, list)]
             bads = bads if tier == "thorough" else bads[:9]
+            # the SAME sequence object, assigned while it was valid, then changed by its owner and assigned again (to the same message,
+            # to another one, whole and as a slice): every assignment is judged on what the sequence holds now
+            for pos in range(n):
+                for bad in bads[:6]:
+                    for target in ("same", "other", "slice"):
+                        buf = list(good)
+                        m = Mn()
+                        setattr(m, f, buf)
+                        buf[pos] = bad
+                        m2 = m if target != "other" else Mn()
+                        setattr(m2, f, prefill) if target == "other" else None
+                        if target == "slice":
+                            arr = getattr(m2, f)
+                            col.attempt(m2, f"{f}[:]=same list object, now bad@{pos}:{bad!r}", lambda: arr.__setitem__(slice(None), buf), "out", lambda: getattr(m2, f)[:])
+                        else:
+                            col.attempt(m2, f"{f}=same list object ({target} message), now bad@{pos}:{bad!r}", lambda: setattr(m2, f, buf), "out", lambda: getattr(m2, f)[:])
+            buf = list(good)
+            m = Mn()
+            setattr(m, f, buf)
+            buf[0], buf[-1] = good[-1], good[0]
+            col.attempt(m, f"{f}=same list object, other valid values", lambda: setattr(m, f, buf), "in", lambda: getattr(m, f)[:], [conv(x) for x in buf], cmpl)
             forms = {"list": list, "tuple": tuple}
             for formname, form in forms.items():
                 # valid
